@@ -158,11 +158,15 @@ func (w *vc10World) trig() string {
 	return strings.Join(t, "+")
 }
 
-// class builds the violation class: fired trigger patterns + clause group, or
-// the plain clause when no recorded trigger pattern occurred in the history.
+// class builds the violation class. When the executed history contains the
+// trigger pattern of a recorded finding (w.fired, measured by the monitor), the
+// class is "<pattern(s)>/diverges" whatever clause failed first: which clause
+// observes a misplaced write or a wrong offset first (a size, a read, a seek
+// result, an error, a bounds panic) depends on the operations that follow and
+// is not a property of the defect. Otherwise the class is the failed clause.
 func (w *vc10World) class(clause, group string) string {
 	if t := w.trig(); t != "" {
-		return t + "/" + group
+		return t + "/diverges"
 	}
 	return clause
 }
@@ -205,7 +209,7 @@ func (w *vc10World) do(op string, fn func(o *vc10Obs)) vc10Obs {
 		site := vlib.PanicSite(o.stack)
 		cl := "panic/" + op + "@" + site
 		if t := w.trig(); t != "" {
-			cl = t + "/panic"
+			cl = t + "/diverges"
 		}
 		w.k.Fail(cl, "no-panic", op+" returns", fmt.Sprintf("panic in %s at %s: %v\n%s", op, site, o.pan, vc10Trim(o.stack, 1800)))
 	}
@@ -303,7 +307,7 @@ func vc10History(k *vlib.Case, g vc10Gen) {
 			pi = 3
 		}
 	case "foreign":
-		kind = vlib.Pick(r, []string{"balanced", "trickle-other-width"})
+		kind = vlib.Pick(r, []string{"balanced", "balanced-other-width", "trickle-other-width"})
 		cfgFeat = "init-" + kind
 	case "identity":
 		kind = vlib.Pick(r, []string{"rawnode", "rawnode", "pbleaf-empty"})
@@ -314,13 +318,10 @@ func vc10History(k *vlib.Case, g vc10Gen) {
 	pref := vc10Prefixes[pi]
 	chunk0 := r.Range(16, 512)
 	width0 := maxLinks
-	if kind == "trickle-other-width" {
+	if kind == "trickle-other-width" || kind == "balanced-other-width" {
 		for width0 == maxLinks {
 			width0 = r.Range(2, 8)
 		}
-	}
-	if kind == "balanced" {
-		width0 = r.Range(2, 8)
 	}
 	n0 := vc10Len(r, chunk0, width0)
 	if n0 < 0 {
@@ -339,7 +340,7 @@ func vc10History(k *vlib.Case, g vc10Gen) {
 		if n0 == 0 {
 			n0 = r.Range(1, 64)
 		}
-	case "balanced", "trickle-other-width":
+	case "balanced", "balanced-other-width", "trickle-other-width":
 		if n0 <= chunk0*2 {
 			chunk0 = r.Range(16, 64)
 			n0 = r.Range(2*chunk0+1, 4096)
@@ -352,13 +353,13 @@ func vc10History(k *vlib.Case, g vc10Gen) {
 	}
 	var root ipld.Node
 	switch kind {
-	case "trickle", "trickle-other-width", "balanced", "empty":
+	case "trickle", "trickle-other-width", "balanced", "balanced-other-width", "empty":
 		dbp := help.DagBuilderParams{Dagserv: dserv, Maxlinks: width0, CidBuilder: pref.p, RawLeaves: rawLeaves0}
 		db, err := dbp.New(chunker.NewSizeSplitter(bytes.NewReader(content), int64(chunk0)))
 		if err != nil {
 			panic(err)
 		}
-		if kind == "balanced" {
+		if strings.HasPrefix(kind, "balanced") {
 			root, err = balanced.Layout(db)
 		} else {
 			root, err = trickle.Layout(db)
@@ -439,7 +440,7 @@ func (w *vc10World) step() {
 	r, g := w.r, w.g
 	// an ambiguous offset (after WriteAt) is resolved first in most cases so
 	// that the generator's idea of "current offset" is the implementation's
-	if w.ambiguousOff() {
+	if w.ambiguousOff() || w.offArmed && g.absSeekAfter {
 		if g.absSeekAfter || g.writeAt == 1 || r.Chance(1, 2) {
 			abs := g.absSeekAfter || w.offArmed && g.name != "writeat-offset"
 			switch {
@@ -478,7 +479,7 @@ func (w *vc10World) step() {
 				w.opSeek(w.resyncSeek())
 				return
 			}
-			if g.writeAt == 2 && w.runActive && off == w.runStart && off != w.cur() {
+			if g.writeAt <= 2 && w.runActive && off == w.runStart && (off != w.cur() || w.ambiguousOff()) {
 				continue
 			}
 			w.opWriteAt(b, off)
@@ -720,13 +721,14 @@ func (w *vc10World) opWriteAt(b []byte, off int64) {
 		}
 	}
 	w.k.Logf("WriteAt %s off=%d   [model off=%d size=%d%s]", w.hex(b), off, w.cur(), w.size(), map[bool]string{true: " " + feat, false: ""}[feat != ""])
-	if atCur {
-		w.offsetDependent()
-		if w.readStale && len(b) > 0 {
-			w.fired["write-after-read"] = true
-		}
+	// The modifier decides between "continue the pending buffer" and "flush
+	// and reposition" by comparing with its current offset, so a WriteAt is
+	// itself offset-dependent.
+	w.offsetDependent()
+	if atCur && w.readStale && len(b) > 0 {
+		w.fired["write-after-read"] = true
 	}
-	if feat == "runstart-shorter" || feat == "runstart-unknownlen" {
+	if len(b) > 0 && (feat == "runstart-shorter" || feat == "runstart-unknownlen") {
 		w.fired["writeat-"+feat] = true
 	}
 	o := w.do("WriteAt", func(o *vc10Obs) { n, err := w.dm.WriteAt(b, off); o.n, o.err = int64(n), err })
